@@ -1381,7 +1381,10 @@ def subjects_rule(P, E, H):
     r = RuleResult("SUBJ", "Behavior / Replay / Async subjects: every event is recorded and broadcast as defined, and a new subscriber is "
                            "handed exactly the recorded state (latest value or stored terminal; the whole history, then the stored terminal)")
     KEEP = ("remember", "push_back", "window_next", "window_error", "window_complete", "clear", "take_all", "sink_next", "sink_error",
-            "sink_complete", "subscribe", "panic", "opaque", "loop")
+            "sink_complete", "subscribe", "panic", "opaque", "loop",
+            # every other way of changing the recorded history is part of what the emitter does
+            "push_front", "pop_front", "pop_back", "cont_replace", "cont_truncate", "cont_drain", "cont_retain", "cont_remove", "cont_insert",
+            "cont_append", "cont_extend", "cont_split_off", "cont_resize", "cont_swap_remove")
     BS, RS, AS = ("subjects::behavior_subject::BehaviorSubject", "subjects::replay_subject::ReplaySubject",
                   "subjects::async_subject::AsyncSubject")
 
